@@ -142,7 +142,8 @@ var c03BoundaryInts = []interface{}{int64(9223372036854775807), int64(9223372036
 	int64(2147483648), int64(2147483647), int64(65536), int64(4096), 0, 1, 2, 3, -1, int64(-9223372036854775808)}
 
 var c03OddXPaths = []string{"a>1", "n > 5", ".[n > 5]", "/", "//", "..", "a[", "a | b", "1 div 0", "sum(*)>1", "name(", "@", "a[position()=1e99]", "string-length(a) > number(b)",
-	"*[. < 3]", "count(a) div count(b)", "a/b/c/d/e/f/g", ".[matches(id, '(')]", ".[id='r1' or n>='x']", "concat(a)", "substring(a,1e10)", "//*[.//*[.//*]]", "'lit'", "3", "a=b", "not(a) = b", "-a"}
+	"*[. < 3]", "count(a) div count(b)", "a/b/c/d/e/f/g", ".[matches(id, '(')]", ".[id='r1' or n>='x']", "concat(a)", "substring(a,1e10)", "//*[.//*[.//*]]", "'lit'", "3", "a=b", "not(a) = b", "-a",
+	"concat(a)//a", "concat(a,b)/c", "string(.)//*", "count(a)/b", "(a|b)//c", "a//b//c[1]", "id('x')", "sum(a)//text()"}
 
 var c03Keys = []string{"xpath", "xpath_dynamic", "object", "array", "template", "custom_func", "const", "external", "type", "no_trim", "keep_empty_or_null", "name", "args",
 	"ignore_error", "min", "max", "rows", "header", "footer", "is_target", "columns", "index", "line_index", "line_pattern", "start_pos", "length", "delimiter",
@@ -379,6 +380,8 @@ var c03Adversarial = []string{
 	`{"parser_settings":{"version":"omni.2.1","file_format_type":"edi"},"file_declaration":{"segment_delimiter":"~","element_delimiter":"*","segment_declarations":[{"name":"A","is_target":true,"min":0,"max":-1,"elements":[{"name":"e","index":1}]}]},"transform_declarations":{"FINAL_OUTPUT":{"xpath":".[e > 1]","object":{"e":{"xpath":"e"}}}}}`,
 	`{"parser_settings":{"version":"omni.2.1","file_format_type":"json"},"transform_declarations":{"FINAL_OUTPUT":{"xpath":"/*[a > 3 or . > 1]","object":{"v":{"xpath":"a"}}}}}`,
 	`{"parser_settings":{"version":"omni.2.1","file_format_type":"xml"},"transform_declarations":{"FINAL_OUTPUT":{"xpath":"/*/*[b > 2]","object":{"v":{"xpath":"b"}}}}}`,
+	`{"parser_settings":{"version":"omni.2.1","file_format_type":"xml"},"transform_declarations":{"FINAL_OUTPUT":{"xpath":"/*/*","object":{"a":{"xpath":"concat(a)//a"},"b":{"array":[{"xpath":"concat(b)//b"}]},"c":{"xpath_dynamic":{"const":"string(.)//*"}}}}}}`,
+	`{"parser_settings":{"version":"omni.2.1","file_format_type":"json"},"transform_declarations":{"FINAL_OUTPUT":{"xpath":"concat(a)//a","object":{}}}}`,
 	// xpath oddities evaluated on data
 	`{"parser_settings":{"version":"omni.2.1","file_format_type":"json"},"transform_declarations":{"FINAL_OUTPUT":{"xpath":"/*[a > 3]","object":{"v":{"xpath":"a[. > 3]"}}}}}`,
 	`{"parser_settings":{"version":"omni.2.1","file_format_type":"xml"},"transform_declarations":{"FINAL_OUTPUT":{"xpath":"//a[b >= c]","object":{"v":{"xpath":"b[. < ../c]"},"w":{"xpath_dynamic":{"xpath":"b"}}}}}}`,
